@@ -11,7 +11,7 @@
 From Coq Require Import List ZArith NArith Bool.
 From BBS Require Import Common.Sx Buffer.Source Buffer.Validate Buffer.Convert
   Buffer.StreamProofs Buffer.ValidateProofs Buffer.ConvertProofs
-  Buffer.ValidateReaderProofs Buffer.ReaderBufferProofs Run.R09.
+  Buffer.ValidateReaderProofs Buffer.ReaderBufferProofs Buffer.ConvertProofs2 Run.R09.
 Import ListNotations.
 Open Scope N_scope.
 
@@ -120,18 +120,17 @@ Print Assumptions reader_sticky.
       forall m o, m <> MDiscard -> C ... m = o -> completed m (o_err o) = true ->
         valid_script H cfg evs /\ o_data o = expected_slice m (fst (content evs))
 
-    Proved: NewCASBufferFromChunkReader for ToByteSlice, IntoWriter, ToChunkReader
-    (any offset / chunk size) and CloneCopy; NewCASBufferFromReader for ToByteSlice,
-    IntoWriter, ToReader (any read sizes) and CloneCopy; NewCASBufferFromByteSlice for
-    every method.  The remaining constructor x method pairs (ReadAt; ToReader of
-    chunk-reader buffers; ToChunkReader of reader buffers) rest on the validator
-    theorems above plus the correspondence check. *)
-Theorem chunk_reader_buffer_complete_implies_valid_partial : forall H cfg fuel evs m o,
-  match m with MToByteSlice _ | MIntoWriter | MCloneCopy _ | MToChunkReader _ _ _ => True | _ => False end ->
+    Proved in full for NewCASBufferFromChunkReader and NewCASBufferFromByteSlice;
+    for NewCASBufferFromReader proved for ToByteSlice, IntoWriter, ToReader (any read
+    sizes) and CloneCopy; its ReadAt and ToChunkReader (io.CopyN / io.ReadFull loops
+    around the validated reader) rest on the validator theorems above plus the
+    correspondence check. *)
+Theorem chunk_reader_buffer_complete_implies_valid : forall H cfg fuel evs m o,
+  m <> MDiscard ->
   cas_chunk_reader H cfg fuel evs m = o -> completed m (o_err o) = true ->
   valid_script H cfg evs /\ o_data o = expected_slice m (fst (content evs)).
-Proof. exact chunk_reader_complete_implies_valid_partial. Qed.
-Print Assumptions chunk_reader_buffer_complete_implies_valid_partial.
+Proof. exact chunk_reader_complete_implies_valid. Qed.
+Print Assumptions chunk_reader_buffer_complete_implies_valid.
 
 Theorem reader_buffer_complete_implies_valid_partial : forall H cfg fuel evs attach m o,
   match m with MToByteSlice _ | MIntoWriter | MCloneCopy _ | MToReader _ _ => True | _ => False end ->
